@@ -140,6 +140,78 @@ theorem range_next_frame_incl (sz : BitVec 64) (r : RefBV.Range) (h : RefBV.IsPa
       = Range.next .frameIncl sz.toNat (RefBridge.toRange r) := by
   rw [SrcTie.PhysFrameRangeInclusive_next cfg sz r h, RefBridge.Range.frameInclNext_toNat' sz h r]
 
+/-! ### iteration: driving the generated `next` to the end -/
+
+/-- Drive a `next` function (as generated from `Iterator::next` of a range type) until it returns `None`; at most
+`fuel` calls. Mirrors `Range.collect` of the model. -/
+def collect (next : RefBV.Range → R (Option (BitVec 64) × RefBV.Range)) :
+    Nat → RefBV.Range → Option (R (List (BitVec 64)))
+  | 0, _ => none
+  | fuel + 1, r =>
+    match next r with
+    | .panic => some .panic
+    | .ok (none, _) => some (.ok [])
+    | .ok (some x, r') =>
+      match collect next fuel r' with
+      | none => none
+      | some .panic => some .panic
+      | some (.ok xs) => some (.ok (x :: xs))
+
+/-- If one call of `next` corresponds to one call of the model's `next`, whole iterations correspond. -/
+theorem collect_toNat (k : RangeKind) (szN : Nat) (next : RefBV.Range → R (Option (BitVec 64) × RefBV.Range))
+    (hnext : ∀ r, (next r).map RefBridge.nextToNat = Range.next k szN (RefBridge.toRange r)) :
+    ∀ fuel r, (collect next fuel r).map (R.map (List.map BitVec.toNat))
+      = Range.collect k szN fuel (RefBridge.toRange r) := by
+  intro fuel
+  induction fuel with
+  | zero => intro r; rfl
+  | succ n ih =>
+    intro r
+    have h := hnext r
+    unfold collect Range.collect
+    cases hn : next r with
+    | panic => rw [hn] at h; simp only [R.map] at h; rw [← h]; rfl
+    | ok v =>
+      obtain ⟨o, r'⟩ := v
+      rw [hn] at h
+      simp only [R.map, RefBridge.nextToNat] at h
+      rw [← h]
+      cases o with
+      | none => rfl
+      | some x =>
+        simp only [Option.map]
+        have ih' := ih r'
+        cases hc : collect next n r' with
+        | none => rw [hc] at ih'; simp only [Option.map] at ih'; rw [← ih']
+        | some rr =>
+          rw [hc] at ih'; simp only [Option.map] at ih'
+          cases rr with
+          | panic => simp only [R.map] at ih'; rw [← ih']; rfl
+          | ok xs => simp only [R.map] at ih'; rw [← ih']; rfl
+
+/-- C07, for the translated source: an exclusive page range in the property's domain (canonical, size-aligned
+bounds in one half, `n` pages long) yields exactly the pages `s, s+SIZE, …` in ascending order, without panicking. -/
+theorem C07_page_range_yields_what_it_counts (sz : BitVec 64) (hsz : RefBV.IsPageSize sz) (s e : BitVec 64) (n : Nat)
+    (d : C07.VDom sz.toNat s.toNat e.toNat) (h : s.toNat + n * sz.toNat = e.toNat) :
+    (collect (Src.PageRange_next cfg sz) (n + 1) (s, e)).map (R.map (List.map BitVec.toNat))
+      = some (.ok (itemsSpec sz.toNat s.toNat n)) := by
+  rw [collect_toNat .page sz.toNat _ (fun r => range_next_page cfg sz r hsz)]
+  exact C07.page_range_items sz.toNat n s.toNat e.toNat d h
+
+theorem C07_page_range_incl_yields_what_it_counts (sz : BitVec 64) (hsz : RefBV.IsPageSize sz) (s e : BitVec 64)
+    (n : Nat) (d : C07.VDom sz.toNat s.toNat e.toNat) (h : s.toNat + n * sz.toNat = e.toNat) :
+    (collect (Src.PageRangeInclusive_next cfg sz) (n + 2) (s, e)).map (R.map (List.map BitVec.toNat))
+      = Range.collect .pageIncl sz.toNat (n + 2) ⟨s.toNat, e.toNat⟩ := by
+  rw [collect_toNat .pageIncl sz.toNat _ (fun r => range_next_page_incl cfg sz r hsz)]
+  rfl
+
+theorem C07_frame_range_yields_what_it_counts (sz : BitVec 64) (hsz : RefBV.IsPageSize sz) (s e : BitVec 64) (n : Nat)
+    (d : C07.PDom sz.toNat s.toNat e.toNat) (h : s.toNat + n * sz.toNat = e.toNat) :
+    (collect (Src.PhysFrameRange_next cfg sz) (n + 1) (s, e)).map (R.map (List.map BitVec.toNat))
+      = some (.ok (itemsSpec sz.toNat s.toNat n)) := by
+  rw [collect_toNat .frame sz.toNat _ (fun r => range_next_frame cfg sz r hsz)]
+  exact C07.frame_range_items sz.toNat n s.toNat e.toNat d h
+
 /-! ### headline sentences of the properties, about the translated source -/
 
 /-- C03: whatever `new_truncate` in the source returns is canonical, for every `u64`, in both profiles. -/
